@@ -35,7 +35,7 @@ RULE = (
 )
 ASSUMPTIONS = ["explicit names for leaves and materializations (generated names are intentionally unique)"]
 
-KINDS = ("build", "build", "build", "compile", "compile", "execute", "process", "diag", "hash", "rebuild", "optcall", "optcall")
+KINDS = ("build", "build", "build", "compile", "compile", "execute", "process", "diag", "hash", "rebuild", "optcall", "optcall", "aliens")
 
 
 def cfg(tier):
@@ -292,6 +292,7 @@ def run_case(case, stats):
 
         nsteps = 0
         first_sql = {}
+        keep_alive = []
         for kind, arg in steps:
             if kind == "build":
                 if pos >= len(order):
@@ -397,6 +398,17 @@ def run_case(case, stats):
                     elif kind == "hash":
                         hash(rel)
                         {rel: 1}
+                    elif kind == "aliens":
+                        # unrelated user code builds expression objects that compare equal to ones used by the pool's
+                        # relations but are not the same thing (1 == 1.0 == True): nothing in the pool may change
+                        from lsst.daf.relation import ColumnExpression, Predicate
+
+                        aliens = [ColumnExpression.literal(float(v)) for v in (-1, 0, 1, 2, 3)]
+                        aliens += [ColumnExpression.literal(True), ColumnExpression.literal(False), Predicate.literal(True), Predicate.literal(False)]
+                        for t_ in sorted(rel.columns, key=lambda t: t.qualified_name)[:2]:
+                            aliens.append(ColumnExpression.reference(t_).eq(ColumnExpression.literal(1.0)))
+                            aliens.append(ColumnExpression.reference(t_).method("__add__", ColumnExpression.literal(True)))
+                        keep_alive.append(aliens)
                     elif kind == "rebuild":
                         if node[0] == "optcall":
                             continue
